@@ -81,6 +81,10 @@ type SeataV1PackageHeader struct {
 }
 
 func (p *RpcPackageHandler) Read(ss getty.Session, data []byte) (interface{}, int, error) {
+	if len(data) < Seatav1HeaderLength {
+		// the fixed-size header is not complete yet: wait for more bytes
+		return nil, 0, nil
+	}
 	in := bytes.NewByteBuffer(data)
 
 	header := SeataV1PackageHeader{}
